@@ -11,6 +11,11 @@ behaviours of the implementation-level spec) are replayed by harness/cmd/kvdrv o
 cachekv.Store stacks over dbadapter.Store{MemDB} and on cachemulti stores; every return value is
 compared with the specification's.  The python code here only orchestrates and compares for
 equality; every expected value comes out of TLC.
+Refused calls (Set with a nil value, Get/Has/Set/Delete with a nil key on a wrapper; operator
+Refused of CacheKV.tla, labels REFUSED below) are part of all three sources of programs: the
+specification's result is "panic" and no variable changes, kvdrv recovers the panic and keeps using
+the same stores, so an effect of a refused call surfaces in the reads, iterations, Write and reads
+of the parent that follow it.
 """
 import json
 import os
@@ -21,6 +26,7 @@ import time
 import common
 
 WORKERS = min(8, common.NCPU)   # shared machine: never more than 8 TLC workers
+REFUSED = ("SetNil", "GetNoKey", "HasNoKey", "DeleteNoKey", "SetNoKey")   # RefusedOps of CacheKV.tla
 
 NEEDS = {"cmds": ["kvdrv"],
          "specs": ["CacheKV", "CacheKVImpl", "Trace_CacheKV", "Trace_CacheKVConc"]}
@@ -225,6 +231,31 @@ def observe_around_writes(g, walk):
     return res
 
 
+def observe_after_refused(g, walk):
+    """Insert, after every refused call, reads of the same store that are self-loop edges of the graph
+    (the walk stays a walk): Get/Has of the key of a refused Set and a full iteration in both
+    directions.  'A refused call takes effect not at all': the expected results are the graph's."""
+    def loops(u, s, k):
+        got = []
+        for act, res, v in g.out.get(u, []):
+            if v != u or ('"Get"' not in act and '"Has"' not in act and '"IterAll"' not in act):
+                continue
+            a = json.loads(act)
+            if a["s"] != s:
+                continue
+            if a["op"] in ("Get", "Has") and k is not None and a["k"] == k:
+                got.append((u, a, json.loads(res), v))
+            elif a["op"] == "IterAll" and a["st"] == [] and a["en"] == []:
+                got.append((u, a, json.loads(res), v))
+        return got
+    res = []
+    for (u, act, r, v) in walk:
+        res.append((u, act, r, v))
+        if act["op"] in REFUSED and u == v:
+            res.extend(loops(u, act["s"], act["k"] if act["op"] == "SetNil" else None))
+    return res
+
+
 def program_from_walk(g, start, walk, pid, rng):
     base = {json.dumps(k): v for k, v in zip(g.keys, g.states[start][0])}
     ops, exp = [], []
@@ -367,7 +398,7 @@ class Gen:
     KEYS = [[], [0], [0, 0], [0, 255], [1], [1, 0], [1, 1], [1, 1, 1], [1, 255], [2], [127], [255], [255, 0], [255, 255]]
     VALS = ["", "a", "b", "cc", "ddd", "éè", "0"]
 
-    def __init__(self, rng, maxw=4, maxit=3, nkeys=7):
+    def __init__(self, rng, maxw=4, maxit=3, nkeys=7, stats=None):
         self.rng = rng
         self.maxw, self.maxit = maxw, maxit
         self.keys = rng.sample(self.KEYS, nkeys)
@@ -375,6 +406,11 @@ class Gen:
         self.par = {}      # wrapper -> parent
         self.used = {}
         self.its = {}      # slot -> [wrapper, remaining (unknown to us: we count steps only), exhausted?]
+        self.dirty = {}    # wrapper -> {key: "set" | "del"}: only used to aim refused calls at clean / dirty keys
+        self.stats = stats if stats is not None else {}
+
+    def count(self, what):
+        self.stats[what] = self.stats.get(what, 0) + 1
 
     def anc(self, s):
         r = []
@@ -405,14 +441,14 @@ class Gen:
 
     def program(self, pid, n):
         rng = self.rng
-        self.par, self.used, self.its = {}, {}, {}
+        self.par, self.used, self.its, self.dirty = {}, {}, {}, {}
         init = [{"k": k, "v": rng.choice(self.VALS)} for k in self.keys if rng.random() < 0.5]
         ops = []
         while len(ops) < n:
             stores = [0] + sorted(self.par)
             leafs = [s for s in stores if not self.desc(s)]
             c = rng.choice(["get", "has", "set", "set", "del", "all", "all", "open", "next", "next", "next", "close",
-                            "write", "wrap", "discard", "setany"])
+                            "write", "wrap", "discard", "setany", "refuse"])
             if c in ("get", "has"):
                 s = rng.choice(stores)
                 ops.append({"op": "Get" if c == "get" else "Has", "s": s, "k": rng.choice(self.keys)})
@@ -421,10 +457,13 @@ class Gen:
                 s = rng.choice(leafs if c != "setany" else stores)
                 if self.gone(s, []):
                     continue  # would push used wrappers out of the contract: not generated
+                k = rng.choice(self.keys)
                 if c == "del":
-                    ops.append({"op": "Delete", "s": s, "k": rng.choice(self.keys)})
+                    ops.append({"op": "Delete", "s": s, "k": k})
                 else:
-                    ops.append({"op": "Set", "s": s, "k": rng.choice(self.keys), "v": rng.choice(self.VALS)})
+                    ops.append({"op": "Set", "s": s, "k": k, "v": rng.choice(self.VALS)})
+                if s != 0:
+                    self.dirty[s][tuple(k)] = "del" if c == "del" else "set"
                 self.touch(s)
                 self.kill_its(self.desc(s), ops)
             elif c == "all":
@@ -456,15 +495,9 @@ class Gen:
             elif c == "write":
                 if not self.par:
                     continue
-                w = rng.choice(sorted(self.par))
-                p = self.par[w]
-                ex = [w] + self.desc(w)
-                if self.gone(p, ex):
-                    continue
-                ops.append({"op": "Write", "s": w})
-                self.touch(w)
-                self.used[w] = False
-                self.kill_its(self.desc(p), ops)
+                self.write(rng.choice(sorted(self.par)), ops)
+            elif c == "refuse":
+                self.refuse(ops)
             elif c == "wrap":
                 free = [i for i in range(1, self.maxw + 1) if i not in self.par]
                 if not free:
@@ -473,6 +506,7 @@ class Gen:
                 ops.append({"op": "CacheWrap", "s": s, "n": free[0]})
                 self.par[free[0]] = s
                 self.used[free[0]] = False
+                self.dirty[free[0]] = {}
             elif c == "discard":
                 if not self.par or rng.random() < 0.5:
                     continue
@@ -483,10 +517,75 @@ class Gen:
                 for x in gone:
                     del self.par[x]
                     del self.used[x]
+                    del self.dirty[x]
         for op in ops:
             for f, dflt in (("s", 0), ("k", []), ("v", ""), ("st", []), ("en", []), ("asc", True), ("it", 0), ("n", 0)):
                 op.setdefault(f, dflt)
         return {"id": pid, "init": init, "ops": ops}
+
+    def write(self, w, ops):
+        p = self.par[w]
+        ex = [w] + self.desc(w)
+        if self.gone(p, ex):
+            return False  # would push used wrappers out of the contract: not generated
+        ops.append({"op": "Write", "s": w})
+        self.touch(w)
+        self.used[w] = False
+        if p != 0:
+            self.dirty[p].update(self.dirty[w])
+        self.dirty[w] = {}
+        self.kill_its(self.desc(p), ops)
+        return True
+
+    def refuse(self, ops):
+        """A call the wrapper must refuse (Refused in CacheKV.tla: res = "panic", nothing changes, not even
+        `used`), in the middle of the program, on a wrapper of any depth (half of the time one of depth
+        >= 2 if there is one), for a nil-value Set on a key that is clean, dirty-set or dirty-deleted in
+        that wrapper; then what makes an effect of the refused call observable: Get/Has of the key,
+        full iterations in both directions, Write and reads of the parent."""
+        rng = self.rng
+        ws = sorted(self.par)
+        if not ws:
+            return
+        deep = [w for w in ws if len(self.anc(w)) >= 2]
+        s = rng.choice(deep) if deep and rng.random() < 0.5 else rng.choice(ws)
+        depth = len(self.anc(s))
+        if rng.random() < 0.25:
+            o = rng.choice(["GetNoKey", "HasNoKey", "DeleteNoKey", "SetNoKey"])
+            ops.append({"op": o, "s": s, "v": rng.choice(self.VALS) if o == "SetNoKey" else ""})
+            k = rng.choice(self.keys)
+            self.count("nil_key")
+        else:
+            cats = {"clean": [k for k in self.keys if tuple(k) not in self.dirty[s]],
+                    "dirty_set": [k for k in self.keys if self.dirty[s].get(tuple(k)) == "set"],
+                    "dirty_deleted": [k for k in self.keys if self.dirty[s].get(tuple(k)) == "del"]}
+            cat = rng.choice(sorted(c for c in cats if cats[c]))
+            k = rng.choice(cats[cat])
+            ops.append({"op": "SetNil", "s": s, "k": k})
+            self.count("nil_value_on_%s_key" % cat)
+            self.count("nil_value_at_depth_%s" % (depth if depth < 3 else "3+"))
+        self.count("refused_at_depth_%s" % (depth if depth < 3 else "3+"))
+        if rng.random() < 0.8:
+            ops.append({"op": "Get", "s": s, "k": k})
+            self.touch(s)
+        if rng.random() < 0.5:
+            ops.append({"op": "Has", "s": s, "k": k})
+            self.touch(s)
+        for asc in (True, False):
+            if rng.random() < 0.6:
+                full = rng.random() < 0.7
+                ops.append({"op": "IterAll", "s": s, "st": [] if full else self.bound(), "en": [] if full else self.bound(),
+                            "asc": asc, "pat": rng.randrange(4)})
+                self.touch(s)
+        if rng.random() < 0.5 and self.write(s, ops):
+            p = self.par[s]
+            self.count("refused_then_write")
+            ops.append({"op": "Get", "s": p, "k": k})
+            ops.append({"op": "IterAll", "s": p, "st": [], "en": [], "asc": rng.random() < 0.5, "pat": rng.randrange(4)})
+            self.touch(p)
+            if rng.random() < 0.5:
+                ops.append({"op": "Get", "s": s, "k": k})
+                self.touch(s)
 
     def kill_its(self, stores, ops):
         for i in [i for i, w in self.its.items() if w in stores]:
@@ -499,9 +598,14 @@ def validate_random(out, d, seed, n_prog, n_ops):
     (operation, arguments, real result) is validated by TLC against CacheKV.tla (Trace_CacheKV.tla)."""
     rng = random.Random(seed * 7919 + 13)
     progs = []
+    stats = {}
     for i in range(n_prog):
-        g = Gen(rng)
+        g = Gen(rng, stats=stats)
         progs.append(g.program("r%d" % i, n_ops))
+    need = ["nil_key", "nil_value_on_clean_key", "nil_value_on_dirty_set_key", "nil_value_on_dirty_deleted_key",
+            "nil_value_at_depth_1", "nil_value_at_depth_2", "refused_then_write"]
+    if n_prog >= 100 and [x for x in need if not stats.get(x)]:
+        raise common.ToolError("vacuity: the random programs contain no refused call of kind %s" % [x for x in need if not stats.get(x)])
     results = {}
     for mode in ("cachekv", "cachemulti"):
         path = os.path.join(d, "rand-%s.ndjson" % mode)
@@ -565,7 +669,8 @@ def validate_random(out, d, seed, n_prog, n_ops):
                           program={"id": p["id"], "init": p["init"], "ops": p["ops"][:j + 1]})
         total += len(progs)
         out.cov["traces_validated_against_impl"] += len(progs)
-    out.notes["random_trace_validation"] = {"programs": len(progs), "ops_each": n_ops, "modes": 2}
+    out.notes["random_trace_validation"] = {"programs": len(progs), "ops_each": n_ops, "modes": 2,
+                                            "refused_calls": dict(sorted(stats.items()))}
     return total
 
 
@@ -607,14 +712,14 @@ def run(prop, tier, seed):
                 raise common.ToolError("no EDGE lines from " + cfg)
             want = None
             if sz["edge_frac"] < 1.0:
-                rare = {"Write", "Discard", "CacheWrap", "IterOpen", "IterNext", "IterClose"}
+                rare = {"Write", "Discard", "CacheWrap", "IterOpen", "IterNext", "IterClose"} | set(REFUSED)
                 want = set()
                 for u, es in g.out.items():
                     for j, (act, r, v) in enumerate(es):
                         if json.loads(act)["op"] in rare and rng.random() < 0.6 or rng.random() < sz["edge_frac"]:
                             want.add((u, j))
             ws = tours(g, rng, want)
-            progs = [program_from_walk(g, s, observe_around_writes(g, w), "%s-%d" % (cfg[3:-4], i), rng)
+            progs = [program_from_walk(g, s, observe_after_refused(g, observe_around_writes(g, w)), "%s-%d" % (cfg[3:-4], i), rng)
                      for i, (s, w) in enumerate(ws)]
             covered = len({(u, json.dumps(a, sort_keys=True)) for s, w in ws for (u, a, r, v) in w})
             out.notes.setdefault("state_graphs", []).append(
@@ -687,7 +792,7 @@ BRANCHES = ["GetHit", "GetMiss", "WriteDelete", "WriteSet", "DirtyPushBack", "Di
             "DirtyReplace", "SkipParentInvalid", "SkipCacheInvalid", "SkipParentFirst", "SkipEqualDeleted",
             "SkipEqualExists", "SkipCacheFirstDeleted", "SkipCacheFirstExists", "NextCacheOnly", "NextParentOnly",
             "NextParentFirst", "NextBoth", "NextCacheFirst", "ValueCacheOnly", "ValueParentOnly", "ValueParentFirst",
-            "ValueCache"]
+            "ValueCache", "SetNilValue", "SetNilKey", "NilKey"]
 
 
 def probe_branches(out, d, seed):
@@ -709,7 +814,7 @@ def probe_branches(out, d, seed):
     missing = [b for b in BRANCHES if not counts.get(b)]
     out.notes["spec_branch_probe"] = {"branch_evaluations": counts, "branches_not_taken": missing,
                                       "note": "WriteSkipNil is dead through the public API (Set refuses nil values)"}
-    all_ops = {"Get", "Has", "Set", "Delete", "IterAll", "IterOpen", "IterNext", "IterClose", "Write", "Discard", "CacheWrap"}
+    all_ops = {"Get", "Has", "Set", "Delete", "IterAll", "IterOpen", "IterNext", "IterClose", "Write", "Discard", "CacheWrap"} | set(REFUSED)
     if missing or all_ops - set(ops):
         raise common.ToolError("vacuity: branches of the transcription never evaluated: %s; actions never taken: %s"
                                % (missing, sorted(all_ops - set(ops))))
